@@ -438,6 +438,9 @@ class Check:
             if run.verdict == "inconclusive":
                 # re-run once with the same seed before calling it a hang
                 first_out = (run.stdout, run.stderr)
+                run.first_inconclusive = "%s\n%s" % (run.stdout[-2000:], run.stderr[-3000:])
+                print("NOTE: inconclusive first attempt (%s %s %s), re-running once:\n%s" %
+                      (run.harness, run.variant, " ".join(run.args), run.stderr[-2500:]), file=sys.stderr)
                 self._exec(run)
                 if run.verdict == "inconclusive":
                     sc = (run.result or {}).get("scenario", "?")
